@@ -147,7 +147,320 @@ def inline(prog, f, **kw):
             copy_propagate(g)
         except AnalysisBroken:
             pass
+    nf = fold_constant_branches(g)
+    if nf:
+        drop_unreachable(g)
+    # iteration 2: decisions written as conditional expressions become branches, cached addresses become the
+    # access path they denote (both are pure refinements: every path of the result is a path of the source)
+    nc = expand_conditionals(g)
+    na = addr_propagate(g)
+    if nf or nc or na:
+        try:
+            copy_propagate(g)
+        except AnalysisBroken:
+            pass
+    if nc:
+        from ..analyses import prune_infeasible
+        prune_infeasible(g)
+    drop_unreachable(g)
     return g
+
+
+def fold_constant_branches(g):
+    """a branch whose condition is a constant after parameter substitution (`helper(..., 1)` with `if (flag)`
+    inside) has one successor"""
+    from ..core import fold
+    n = 0
+    for blk in g.blocks.values():
+        if blk.term and blk.term.get('cond') is not None and blk.term.get('cls') == 'SwitchStmt' and len(blk.succ) >= 2:
+            # `switch (band)` in a helper called with a constant
+            c = strip(fold(blk.term['cond']))
+            cases = blk.term.get('cases', [])
+            if isinstance(c, dict) and c.get('k') == 'int' and len(cases) == len(blk.succ):
+                pick = [s_ for s_, cv in zip(blk.succ, cases) if cv == c['v']] or [s_ for s_, cv in zip(blk.succ, cases) if cv == 'default']
+                if pick:
+                    blk.succ = [pick[0]]
+                    blk.term = dict(blk.term, cls='Pruned')
+                    blk.term.pop('cond', None)
+                    n += 1
+            continue
+        if blk.term and blk.term.get('cond') is not None and len(blk.succ) == 2 and blk.term.get('cls') not in ('SwitchStmt', 'MethodDispatch'):
+            c = strip(fold(blk.term['cond']))
+            if isinstance(c, dict) and c.get('k') in ('int', 'null'):
+                v = c['v'] if c.get('k') == 'int' else 0
+                blk.succ = [blk.succ[0] if v else blk.succ[1]]
+                blk.term = dict(blk.term, cls='Pruned', pruned=('false' if v else 'true'))
+                blk.term.pop('cond', None)
+                n += 1
+    if n:
+        g._preds = None
+    return n
+
+
+def _renumber(g):
+    g._preds = None
+    for b in g.blocks.values():
+        for i, e in enumerate(b.events):
+            e['_b'] = b.id
+            e['_i'] = i
+
+
+def drop_unreachable(g):
+    keep = set(g.reachable_blocks()) | {g.exit}
+    for b in [b for b in g.blocks if b not in keep]:
+        del g.blocks[b]
+    _renumber(g)
+
+
+def _addr_taken(g):
+    out = set()
+    for blk in g.blocks.values():
+        for x in walk(blk.events):
+            if x.get('k') == 'addr':
+                v = strip(x['e'])
+                if isinstance(v, dict) and v.get('k') == 'var':
+                    out.add(v['name'])
+    return out
+
+
+def _is_read(nd, name):
+    return nd.get('k') == 'load' and isinstance(nd.get('e'), dict) and nd['e'].get('k') == 'var' and nd['e']['name'] == name
+
+
+_EXPR_KEYS = ('rhs', 'args', 'fnexpr', 'value', 'init')
+
+
+def _rewrite_event(e, fn):
+    """apply the expression rewriter fn to every expression an event reads (not to a plain-variable store target)"""
+    if e['ev'] == 'load':
+        e['e'] = fn(e['e'])
+        return
+    for key in _EXPR_KEYS:
+        if key in e:
+            e[key] = fn(e[key])
+    if e['ev'] == 'store' and strip(e['lhs']).get('k') != 'var':
+        e['lhs'] = fn(e['lhs'])
+
+
+def expand_conditionals(g, cap=900):
+    """`X = c ? a : b` becomes `if (c) X = a; else X = b;`; when X is a local whose address is not taken the two arms
+    stay separate paths for as long as that value of X is read (`h = (bits & M) ? fd->handler : NULL; if (h) h(c);`
+    is `if (bits & M) { h = fd->handler; if (h) h(c); } else { h = NULL; if (h) ... }`).
+    Done with the core's flag partitioning: the condition is stored into a fresh flag `$selN`, the store selects on
+    the flag, and every read of X that only this store reaches is wrapped in `$selN ? X : X`, which keeps the flag
+    live; partitioning on the flag then duplicates exactly that region and folds the selections away."""
+    from ..core import _partition_one, _truth, _is_boolean_expr, subst, forward
+    done = 0
+    taken = _addr_taken(g)
+    for _ in range(12):
+        tgt = None
+        for blk in g.blocks.values():
+            for i, e in enumerate(blk.events):
+                if e['ev'] == 'store' and e.get('op') == '=' and 'rhs' in e and not e.get('_noexp'):
+                    r = strip(e['rhs'])
+                    if isinstance(r, dict) and r.get('k') == 'cond' and all(k in r for k in ('c', 'a', 'b')):
+                        tgt = (blk, i, e, r)
+                        break
+            if tgt:
+                break
+        if not tgt:
+            break
+        blk, i, e, r = tgt
+        k = g.__dict__.get('_h03_nsel', 0) + 1
+        g.__dict__['_h03_nsel'] = k
+        sel = '$sel%d' % k
+        selvar = {'k': 'var', 'name': sel, 'vk': 'local', 'type': 'int'}
+        rd = lambda: {'k': 'load', 'e': dict(selvar)}
+        saved_rhs = e['rhs']
+        saved_blocks = {b: (list(x.events), list(x.succ), x.term, x.noreturn) for b, x in g.blocks.items()}
+        saved = (g.entry, g.exit)
+        c = r['c'] if _is_boolean_expr(r['c']) else _truth(r['c'])
+        l = strip(e['lhs'])
+        guards = []
+        if l.get('k') == 'var' and l.get('vk') == 'local' and l['name'] not in taken:
+            v = l['name']
+
+            def tr(x, S, v=v):
+                return frozenset({id(x)}) if redefines(x, v) else S
+            _, ev_in = forward(g, frozenset(), tr, lambda a, b: a | b)
+            only = frozenset({id(e)})
+
+            def guard(x, v=v):
+                return subst(x, lambda nd: {'k': 'cond', 'c': rd(), 'a': dict(nd), 'b': dict(nd), '_guard': True} if _is_read(nd, v) else None)
+            for b2, blk2 in g.blocks.items():
+                for j, e2 in enumerate(blk2.events):
+                    if e2 is not e and ev_in.get((b2, j)) == only:
+                        guards.append((e2, {key: e2[key] for key in _EXPR_KEYS + ('lhs', 'e') if key in e2}))
+                        _rewrite_event(e2, guard)
+                if blk2.term and blk2.term.get('cond') is not None and ev_in.get((b2, len(blk2.events))) == only:
+                    blk2.term = dict(blk2.term, cond=guard(blk2.term['cond']))
+        e['rhs'] = {'k': 'cond', 'c': rd(), 'a': r['a'], 'b': r['b']}
+        blk.events.insert(i, {'ev': 'store', 'lhs': dict(selvar), 'op': '=', 'rhs': c, 'loc': e.get('loc', '')})
+        _renumber(g)
+        ok = False
+        try:
+            ok = _partition_one(g, sel, cap)
+        except AnalysisBroken:
+            ok = False
+        if not ok:
+            # too large: put everything back and leave this store alone
+            for (e2, old) in guards:
+                e2.update(old)
+            _restore(g, saved_blocks, saved)
+            e['rhs'] = saved_rhs
+            e['_noexp'] = True
+            _renumber(g)
+            continue
+        done += 1
+
+        # selections that partitioning could not decide are reads of the variable itself
+        def unguard(nd):
+            if nd.get('k') == 'cond' and nd.get('_guard'):
+                return subst(nd['a'], unguard)
+            return None
+        for blk2 in g.blocks.values():
+            for e2 in blk2.events:
+                _rewrite_event(e2, lambda x: subst(x, unguard))
+            if blk2.term and blk2.term.get('cond') is not None:
+                blk2.term = dict(blk2.term, cond=subst(blk2.term['cond'], unguard))
+    return done
+
+
+def _restore(g, saved_blocks, saved):
+    from ..core import Block
+    g.blocks = {b: Block(b, evs, succ, term, nr) for b, (evs, succ, term, nr) in saved_blocks.items()}
+    g.entry, g.exit = saved
+
+
+def _addr_reads(x):
+    """what the value of an address expression depends on: variables, and memory read on the way to the object"""
+    keys = set()
+    for nd in walk(x):
+        k = nd.get('k')
+        if k == 'var':
+            keys.add(('var', nd['name']))
+        elif k == 'load':
+            t = nd.get('e')
+            while isinstance(t, dict) and t.get('k') in ('load', 'cast') and 'e' in t:
+                t = t['e']
+            if isinstance(t, dict) and t.get('k') == 'member':
+                keys.add((t.get('record'), t['field']))
+            elif isinstance(t, dict) and t.get('k') in ('deref', 'index'):
+                keys.add(('mem', '*'))
+    return frozenset(keys)
+
+
+def addr_propagate(g):
+    """`p = &OBJ->field` / `p = &arr[i]` held in a local whose own address is not taken: reads of p are replaced by the
+    address expression while it still denotes the same location (p and every variable the expression reads unchanged,
+    no store to a pointer field it reads, no call into unknown code when it reads memory), then `(&X)->f` is `X.f` and
+    `*(&X)` is `X`.  Afterwards a list node, a readiness byte or a kernel entry reached through a cached address is
+    spelled like a direct access."""
+    import json
+    from ..core import forward, simplify, subst, _pure_path, PURE_CALLS
+    taken = _addr_taken(g)
+
+    def defn(e):
+        if e['ev'] == 'store' and e.get('op') == '=' and 'rhs' in e:
+            l = strip(e['lhs'])
+            if l.get('k') == 'var' and l.get('vk') == 'local' and l['name'] not in taken:
+                r = strip(e['rhs'])
+                if isinstance(r, dict) and r.get('k') == 'addr' and isinstance(strip(r['e']), dict) \
+                        and strip(r['e']).get('k') in ('member', 'index') and _pure_path(r):
+                    reads = _addr_reads(r)
+                    if ('var', l['name']) not in reads and sum(1 for _ in walk(r)) <= 40:
+                        return l['name'], r, reads
+        return None
+    if not any(defn(e) for e in g.events()):
+        return _deref_addr(g)
+
+    def transfer(e, S):
+        kills = set()
+        if e['ev'] == 'store':
+            kills.update(lvalue_steps(e['lhs']))
+            l = strip(e['lhs'])
+            if l.get('k') == 'var':
+                kills.add(('var', l['name']))
+            if l.get('k') in ('deref', 'index') and not lvalue_steps(e['lhs']):
+                kills.add(('mem', '*'))
+        elif e['ev'] == 'decl':
+            kills.add(('var', e['name']))
+        elif e['ev'] == 'call':
+            for a in e.get('args', []):
+                a = strip(a)
+                if isinstance(a, dict) and a.get('k') == 'addr':
+                    v = strip(a['e'])
+                    if isinstance(v, dict) and v.get('k') == 'var':
+                        kills.add(('var', v['name']))
+            if e.get('callee') in LIST_PRIMS:
+                if e['callee'] != 'iv_list_empty':
+                    S = frozenset(x for x in S if not any(k[0] == 'iv_list_head' for k in x[2]))
+            elif 'fnexpr' in e or (e.get('callee') and e['callee'] not in PURE_CALLS):
+                S = frozenset(x for x in S if all(k[0] == 'var' for k in x[2]))
+        if kills:
+            S = frozenset(x for x in S if not (x[2] & kills) and ('var', x[0]) not in kills)
+        d = defn(e)
+        if d:
+            S = frozenset(x for x in S if x[0] != d[0]) | {(d[0], json.dumps(d[1], sort_keys=True), d[2])}
+        return S
+    _, ev_in = forward(g, frozenset(), transfer, lambda a, b: a & b)
+    n = [0]
+
+    def rewriter(S):
+        avail = {v: ex for (v, ex, _) in S}
+
+        def r(nd):
+            if nd.get('k') == 'load' and isinstance(nd.get('e'), dict) and nd['e'].get('k') == 'var' \
+                    and nd['e'].get('vk') == 'local' and nd['e']['name'] in avail:
+                n[0] += 1
+                out = json.loads(avail[nd['e']['name']])
+                out['_was'] = nd['e']['name']
+                return out
+            return None
+
+        def fn(x):
+            m = n[0]
+            y = subst(x, r)
+            return simplify(y) if n[0] != m else x
+        return fn
+    for b, blk in g.blocks.items():
+        for i, e in enumerate(blk.events):
+            S = ev_in.get((b, i))
+            if S:
+                _rewrite_event(e, rewriter(S))
+        S = ev_in.get((b, len(blk.events)))
+        if S and blk.term and blk.term.get('cond') is not None:
+            blk.term = dict(blk.term, cond=rewriter(S)(blk.term['cond']))
+    return n[0] + _deref_addr(g)
+
+
+def _deref_addr(g):
+    """an out-parameter that received `&local`: `*&local` is `local`, `(&local)->f` is `local.f` (also behind the load
+    node the substituted parameter read leaves)"""
+    from ..core import subst
+    n = [0]
+
+    def r(nd):
+        if nd.get('k') == 'deref' and isinstance(strip(nd.get('e')), dict) and strip(nd['e']).get('k') == 'addr':
+            n[0] += 1
+            return subst(strip(nd['e'])['e'], r)
+        if nd.get('k') == 'member' and nd.get('arrow') and isinstance(strip(nd.get('base')), dict) and strip(nd['base']).get('k') == 'addr' \
+                and isinstance(nd['base'], dict) and nd['base'].get('k') != 'cast':
+            n[0] += 1
+            return dict(nd, arrow=False, base=subst(strip(nd['base'])['e'], r))
+        return None
+    for blk in g.blocks.values():
+        for e in blk.events:
+            _rewrite_event(e, lambda x: subst(x, r))
+        if blk.term and blk.term.get('cond') is not None:
+            m = n[0]
+            c = subst(blk.term['cond'], r)
+            if n[0] != m:
+                blk.term = dict(blk.term, cond=c)
+    return n[0]
+
+
+LIST_PRIMS = ('iv_list_add', 'iv_list_add_tail', 'iv_list_del', 'iv_list_del_init', 'INIT_IV_LIST_HEAD', 'iv_list_empty')
 
 
 def inlined(prog, f):
@@ -157,6 +470,32 @@ def inlined(prog, f):
     if f.q not in cache:
         cache[f.q] = inline(prog, f)
     return cache[f.q]
+
+
+def normalised(prog, f):
+    """f alone (nothing inlined) with the normalisations of `inline` (cached addresses, conditional expressions)"""
+    cache = prog.__dict__.setdefault('_h03_norm', {})
+    if f.q not in cache:
+        cache[f.q] = inline(prog, f, stop=lambda t: True)
+    return cache[f.q]
+
+
+def _mentions(f, keys):
+    for b in f.blocks.values():
+        for x in walk(b.events):
+            if x.get('k') == 'member' and (x.get('record'), x.get('field')) in keys:
+                return True
+    return False
+
+
+def functions_with(prog, pred, keys):
+    """functions with an event satisfying pred, judged on their normalised form (a list node or a field reached
+    through a cached address counts); only functions that mention one of the (record, field) keys are looked at"""
+    out = []
+    for f in sorted(prog.all_funcs(), key=lambda f: f.q):
+        if f.blocks and _mentions(f, keys) and any(pred(e) for e in normalised(prog, f).events()):
+            out.append(f)
+    return out
 
 
 def dispatch_contexts(prog):
@@ -415,7 +754,26 @@ def stored_tokens(prog):
             if e['ev'] == 'store' and e.get('op') == '=' and 'rhs' in e and kernel_entry_ptr(e['lhs']):
                 for (t, fn) in resolve(f, e['rhs'], 0):
                     toks.setdefault(t, []).append(fn)
+            elif e['ev'] in ('decl', 'store'):
+                # a kernel entry built by an initialiser list / compound literal: { .events = M, .data = { .ptr = X } }
+                for x in init_user_data(e.get('init') if e['ev'] == 'decl' else e.get('rhs')):
+                    for (t, fn) in resolve(f, x, 0):
+                        toks.setdefault(t, []).append(fn)
     return toks
+
+
+def init_user_data(x):
+    """user-data pointer expressions of the epoll_event initialiser lists inside x"""
+    for nd in walk(x) if isinstance(x, (dict, list)) else ():
+        if nd.get('k') == 'init' and nd.get('record') == 'epoll_event':
+            d = (nd.get('fields') or {}).get('data')
+            if d is None and len(nd.get('elems') or []) > 1:
+                d = nd['elems'][1]
+            if isinstance(d, dict) and d.get('k') == 'init':
+                if 'ptr' in (d.get('fields') or {}):
+                    yield d['fields']['ptr']
+                elif d.get('elems') and not d.get('fields'):
+                    yield d['elems'][0]
 
 
 def token_name(tok):
@@ -517,8 +875,14 @@ def left_batch(g, key=(FD, 'list_active')):
     The fact follows the value through plain copies (`fd = $ret1`, `cur@2 = fd`: a helper that pops the
     head and returns it, a helper that receives it) and holds vacuously for a NULL pointer; an unlink through
     the list node N counts for V when V == container_of(N, list_active) and no list operation lies in between."""
+    locals_ = set()
+    for e_ in g.events():
+        for x in walk(e_):
+            if x.get('k') == 'var' and x.get('vk') in ('local', 'param'):
+                locals_.add(x['name'])
+
     def drop_var(S, v):
-        return frozenset(it for it in S if not ((it[0] == 'U' and it[1] == v) or (it[0] == 'N' and (it[1] == v or v in it[3]))))
+        return frozenset(it for it in S if not ((it[0] in ('U', 'UL') and it[1] == v) or (it[0] == 'N' and (it[1] == v or v in it[3]))))
 
     def tr(e, S):
         if e['ev'] == 'decl':
@@ -531,7 +895,9 @@ def left_batch(g, key=(FD, 'list_active')):
                 if e.get('op') == '=' and 'rhs' in e:
                     node = container_node(e, key)
                     w = _plain_var(e['rhs'])
-                    if node is not None:
+                    if node is not None and any(('UL', nm) in before for nm in node[1]) and _plain_var(strip(e['rhs'])['e']) is not None:
+                        S = S | {('U', v)}
+                    elif node is not None:
                         S = S | {('N', v, node[0], node[1])}
                     elif is_null_value(e['rhs']):
                         S = S | {('U', v)}
@@ -553,17 +919,32 @@ def left_batch(g, key=(FD, 'list_active')):
             for it in S:
                 if it[0] == 'N' and it[2] == a0:
                     add.add(('U', it[1]))
+            # the node a pointer local holds was unlinked: an object computed from that local afterwards is that node's
+            # owner (`n = head->next; unlink(n); fd = container_of(n, ...)`)
+            from ..core import names_of
+            a = e['args'][0] if e.get('args') else None
+            for nm in (names_of(a) if isinstance(a, dict) else ()):
+                if nm in locals_:
+                    add.add(('UL', nm))
             return frozenset(it for it in S if it[0] != 'N') | add
         if is_link(e):
             k, o = list_member_arg(e)
             m = strip(strip(e['args'][0])['e'])
             v = _plain_var(m['base'])
-            return frozenset(it for it in S if it[0] != 'N' and not (it[0] == 'U' and (v is None or it[1] == v)))
+            return frozenset(it for it in S if it[0] not in ('N', 'UL') and not (it[0] == 'U' and (v is None or it[1] == v)))
         if e['ev'] == 'call' and any(it[0] == 'N' for it in S) and may_change_lists(e):
             return frozenset(it for it in S if it[0] != 'N')
         return S
+    def edge(blk, si, S):
+        # on a branch that established V == NULL the fact holds vacuously for V (nothing is called through it);
+        # `fd = c ? container_of(n) : NULL; if (fd != NULL) unlink(n); return fd;`
+        for (op, l, r) in _edge_atoms(blk, si):
+            v = _plain_var(l)
+            if op == '==' and v is not None and is_null_value(r):
+                S = S | {('U', v)}
+        return S
     from ..core import forward
-    _, ev_in = forward(g, frozenset(), tr, lambda a, b: a & b)
+    _, ev_in = forward(g, frozenset(), tr, lambda a, b: a & b, edge=edge)
     return {k: frozenset(it[1] for it in S if it[0] == 'U') for k, S in ev_in.items()}
 
 
@@ -661,3 +1042,272 @@ def stale_after_callback(fn, is_callback):
                 if v['name'] in names:
                     reports.append((e, v['name'], acc, names[v['name']]))
     return reports, objvars, markers
+
+
+# ---------------------------------------------------------------------------------------
+# R-C03e: what keeps a pointer to a descriptor outside the library's lists (the kernel's interest set, the array
+# that parallels the pollfd array), and whether unregister undoes it before it returns.  Self-contained: only the
+# descriptor kinds are looked at (a holder of another object kind cannot break these obligations).
+# ---------------------------------------------------------------------------------------
+
+KERNEL_UPDATES = ('epoll_ctl',)        # kernel API that changes the interest set
+
+
+def fd_pointer(x):
+    """x is a pointer to a descriptor (typed variable, or the container_of that yields one)"""
+    x = strip(x)
+    if isinstance(x, dict) and x.get('k') == 'var' and x.get('ptr') and x.get('record') in FD_RECORDS:
+        return True
+    return isinstance(x, dict) and x.get('k') == 'container_of' and x.get('record') in FD_RECORDS
+
+
+def object_vars(g, root):
+    """names under which the object passed to `root` in its descriptor parameter is known in the inlined root:
+    the parameter, and locals whose every definition is a (cast) copy of such a name"""
+    names = {p['name'] for p in root.params if p.get('ptr') and p.get('record') in FD_RECORDS}
+    defs = {}
+    for e in g.events():
+        if e['ev'] == 'store':
+            l = strip(e['lhs'])
+            if isinstance(l, dict) and l.get('k') == 'var':
+                r = strip(e['rhs']) if e.get('op') == '=' and 'rhs' in e else None
+                defs.setdefault(l['name'], []).append(r['name'] if isinstance(r, dict) and r.get('k') == 'var' else None)
+    changed = True
+    while changed:
+        changed = False
+        for v, srcs in defs.items():
+            if v not in names and srcs and all(s_ in names for s_ in srcs):
+                names.add(v)
+                changed = True
+    return names
+
+
+def _root_name(x):
+    from ..core import root_var
+    rv = root_var(x)
+    return rv['name'] if rv is not None else None
+
+
+def table_functions(prog, table):
+    """{slot: Func} of a poll method table"""
+    out = {}
+    for slot, v in sorted(prog.method_tables().get(table, {}).items()):
+        if v and v[0] != 'str':
+            f = prog.resolve(v[0], v[1])
+            if f is not None and f.blocks:
+                out[slot] = f
+    return out
+
+
+def kernel_tables(prog):
+    """poll methods that hand a descriptor pointer to the kernel as user data (the store is found by the type of the
+    stored value, followed through untyped `void *token` parameters of registration helpers)"""
+    from .. import generic
+    fns = stored_tokens(prog).get(('fd',), [])
+    if not fns:
+        return []
+    mpriv = generic._method_private(prog)
+    out = []
+    for t in sorted(prog.method_tables()):
+        if any(fn.q not in mpriv or t in mpriv[fn.q] for fn in fns):
+            out.append(t)
+    return out
+
+
+def unknown_code(prog):
+    """predicate on call events: the callee may write fields of library objects (indirect call, or a function of the
+    library itself that is still a call after inlining; list primitives and external/libc/kernel functions cannot)"""
+    from ..core import PRIMITIVES
+    own = {f.name for f in prog.all_funcs() if f.blocks} - set(PRIMITIVES) - set(LIST_PRIMS)
+    return lambda e: 'fnexpr' in e or e.get('callee') in own
+
+
+def exit_points(g):
+    from ..analyses import exits_of
+    pts = [(pb, pi) for (pb, pi, _) in exits_of(g)]
+    pts.append((g.exit, 0))
+    return pts
+
+
+def _edge_atoms(blk, si):
+    if not blk.term or blk.term.get('cond') is None or len(blk.succ) != 2 or blk.term.get('cls') in ('SwitchStmt', 'MethodDispatch'):
+        return []
+    return [(op, l, r) for (op, lc, rc, l, r) in norm_cond(blk.term['cond'], si == 0) if op != 'const']
+
+
+def kernel_synced(g, objs, unknown_call):
+    """May-set of (told, link) at every return of g.  told: since the last store to wanted_bands of the object the
+    kernel was told (a kernel update call), or a branch was taken whose condition excludes registered_bands !=
+    wanted_bands for the object (nothing to tell).  link: whether the object is queued for a deferred update (only used to
+    discard paths that contradict it: queued, then found not queued).  unknown_call(e): the call may run code that writes
+    descriptor fields (a user callback, a library function that was not inlined)."""
+    from ..core import forward
+    from ..analyses import list_empty_test
+    key = (FD, 'list_notify')
+
+    BF = ('registered_bands', 'wanted_bands')
+
+    def band_field(x):
+        """(field, base canon) when x reads registered_bands / wanted_bands of the object"""
+        x = strip(x)
+        if isinstance(x, dict) and x.get('k') == 'member' and x.get('record') in FD_RECORDS and x.get('field') in BF \
+                and _root_name(x['base']) in objs:
+            return (x['field'], canon(x['base']))
+        return None
+
+    def same_bands(atoms, copies):
+        cp = {v: (f, b) for (v, f, b) in copies}
+        bases = {b for (_, _, b) in copies}
+        for (op, l, r) in atoms:
+            for x in walk([l, r]):
+                bf = band_field(x)
+                if bf:
+                    bases.add(bf[1])
+        for b in bases:
+            def leaf_for(rb, wb, b=b):
+                vals = {'registered_bands': rb, 'wanted_bands': wb}
+                fl = field_leaf(b, vals)
+
+                def leaf(x):
+                    if x.get('k') == 'var' and x['name'] in cp and cp[x['name']][1] == b:
+                        return vals[cp[x['name']][0]]
+                    return fl(x)
+                return leaf
+            if all(refuted(atoms, leaf_for(rb, wb)) for rb in range(8) for wb in range(8) if rb != wb):
+                return True
+        return False
+
+    def tr(e, S):
+        if e['ev'] == 'call' and e.get('callee') in KERNEL_UPDATES:
+            return frozenset((True, l_, c_) for (_, l_, c_) in S)
+        if e['ev'] == 'store':
+            steps = lvalue_steps(e['lhs'])
+            l = strip(e['lhs'])
+            if isinstance(l, dict) and l.get('k') == 'var':
+                # a local that holds a copy of one of the two fields (valid until the field or the local is written)
+                bf = band_field(e['rhs']) if e.get('op') == '=' and 'rhs' in e else None
+                out = set()
+                for (t_, l_, c_) in S:
+                    c2 = frozenset(x for x in c_ if x[0] != l['name'] and x[2] != l['name'])
+                    if bf:
+                        c2 = c2 | {(l['name'], bf[0], bf[1])}
+                    out.add((t_, l_, c2))
+                return frozenset(out)
+            hit = [f for f in BF if (FD, f) in steps]
+            if hit:
+                return frozenset((t_ and 'wanted_bands' not in hit, l_, frozenset(x for x in c_ if x[1] not in hit)) for (t_, l_, c_) in S)
+            return S
+        if e['ev'] == 'decl':
+            return frozenset((t_, l_, frozenset(x for x in c_ if x[0] != e.get('name') and x[2] != e.get('name'))) for (t_, l_, c_) in S)
+        if is_link(e, key):
+            return frozenset((t_, 'L', c_) for (t_, _, c_) in S)
+        if is_unlink(e, key):
+            return frozenset((t_, 'N', c_) for (t_, _, c_) in S)
+        if e['ev'] == 'call' and unknown_call(e):
+            # unknown code may write the fields: copies die
+            return frozenset((t_, l_, frozenset()) for (t_, l_, c_) in S)
+        return S
+
+    def edge(blk, si, S):
+        atoms = _edge_atoms(blk, si)
+        if atoms:
+            S = frozenset(((True if same_bands(atoms, c_) else t_), l_, c_) for (t_, l_, c_) in S)
+        if blk.term and blk.term.get('cond') is not None and len(blk.succ) == 2:
+            for at in norm_cond(blk.term['cond'], si == 0):
+                t = list_empty_test(at, member_key=key)
+                if t == 'empty':
+                    S = frozenset((t_, 'N', c_) for (t_, l_, c_) in S if l_ != 'L')
+                elif t == 'nonempty':
+                    S = frozenset((t_, 'L', c_) for (t_, l_, c_) in S if l_ != 'N')
+        return S if S else None
+    _, ev_in = forward(g, frozenset({(False, 'U', frozenset())}), tr, lambda a, b: a | b, edge=edge)
+    sts = set()
+    for p in exit_points(g):
+        sts |= {(t_, l_) for (t_, l_, c_) in ev_in.get(p, ())}
+    return sts
+
+
+def slot_stores(g):
+    """stores of a descriptor pointer into an element of an array / a heap block (whatever the spelling: a[i], *(a + i), *p)"""
+    out = []
+    for e in g.events():
+        if e['ev'] == 'store' and e.get('op') == '=' and 'rhs' in e and fd_pointer(e['rhs']):
+            l = strip(e['lhs'])
+            if isinstance(l, dict) and l.get('k') in ('index', 'deref'):
+                out.append(e)
+    return out
+
+
+def slot_index_fields(g, stores):
+    """(record, field) of the scalar field(s) of the descriptor from which the slot address is computed
+    (`arr[fd->idx] = fd`; `i = n++; fd->idx = i; arr[i] = fd`)"""
+    keys = set()
+
+    def fd_field(y):
+        if y.get('k') == 'member' and not y.get('trecord') and not y.get('tptr'):
+            x = y
+            while isinstance(x, dict) and x.get('k') == 'member' and not x['arrow']:
+                x = strip(x['base'])
+            if isinstance(x, dict) and x.get('k') == 'member' and fd_pointer(x['base']):
+                return (y.get('record'), y['field'])
+        return None
+    for e in stores:
+        l = strip(e['lhs'])
+        addr = [l['base'], l['idx']] if l.get('k') == 'index' else [l['e']]
+        locs = set()
+        for y in walk(addr):
+            k = fd_field(y)
+            if k:
+                keys.add(k)
+            if y.get('k') == 'var' and y.get('vk') in ('local', 'param') and not y.get('ptr'):
+                locs.add(y['name'])
+        for e2 in g.events():
+            if e2['ev'] == 'store' and e2.get('op') == '=' and 'rhs' in e2:
+                k = fd_field(strip(e2['lhs'])) if isinstance(strip(e2['lhs']), dict) else None
+                r = strip(e2['rhs'])
+                if k and isinstance(r, dict) and r.get('k') == 'var' and r['name'] in locs:
+                    keys.add(k)
+    return keys
+
+
+def index_is(g, objs, idxkeys, free):
+    """{point: bool} must-analysis: the index field of the object holds `free` (stored, or implied by a branch taken) and
+    no store that may alias it wrote anything else since"""
+    from ..core import forward
+    samples = [v for v in (-2, -1, 0, 1, 2, 1000, 2 ** 31 - 1) if v != free]
+
+    def leaf_for(b, val):
+        def leaf(x):
+            if x.get('k') == 'member' and (x.get('record'), x.get('field')) in idxkeys and canon(_obj_base(x)) == b:
+                return val
+            return None
+        return leaf
+
+    def tr(e, s):
+        if e['ev'] == 'store' and any(k in idxkeys for k in lvalue_steps(e['lhs'])):
+            v = const_value(e['rhs']) if e.get('op') == '=' and 'rhs' in e else None
+            if _root_name(e['lhs']) in objs:
+                return v == free
+            return s if v == free else False
+        return s
+
+    def edge(blk, si, s):
+        atoms = _edge_atoms(blk, si)
+        bases = set()
+        for (op, l, r) in atoms:
+            for x in walk([l, r]):
+                if x.get('k') == 'member' and (x.get('record'), x.get('field')) in idxkeys and _root_name(x) in objs:
+                    bases.add(canon(_obj_base(x)))
+        for b in bases:
+            if all(refuted(atoms, leaf_for(b, v)) for v in samples) and not refuted(atoms, leaf_for(b, free)):
+                return True
+        return s
+    _, ev_in = forward(g, False, tr, lambda a, b: a and b, edge=edge)
+    return ev_in
+
+
+def _obj_base(x):
+    """base expression of the object a (possibly nested: fd->u.index) field access belongs to"""
+    while isinstance(x, dict) and x.get('k') == 'member' and not x['arrow']:
+        x = strip(x['base'])
+    return x['base'] if isinstance(x, dict) and x.get('k') == 'member' else x
